@@ -28,6 +28,8 @@ pub struct AdtMetadata {
 
 impl AdtMetadata {
     pub fn new(evolution_steps: Vec<Evolution>) -> Self {
+        #[cfg(feature = "verif-hooks")]
+        crate::verif::metadata_built();
         if evolution_steps.len() > 255 {
             panic!("Too many evolution steps");
         }
